@@ -34,6 +34,7 @@ class Ctx:
         self.rng = rng
         self.rtol = rtol; self.atol = atol
         self.numdim = numdim or 4
+        self._patched = None
         self.begin_path()
         self.functions = set()
         self.assumptions = set()
@@ -46,6 +47,11 @@ class Ctx:
         self.symnames = {}           # input symbol name -> z3 const (sym) / float (num)
         self._vecs = {}
         self._ufs = {}
+        self._numq = {'uniform': [], 'normal': []}
+        self.unpatch()
+        if self.sym:
+            from . import shims
+            shims.PRESET['uniform'].clear(); shims.PRESET['normal'].clear()
 
     @property
     def sym(self): return self.mode == 'sym'
@@ -146,6 +152,49 @@ class Ctx:
             return SReal(f(*[T(a) for a in args]))
         seed = sum(ord(ch) for ch in name)
         return float(np.sin(seed + sum((k + 1.3) * float(a) for k, a in enumerate(args))))
+
+    # -- random stream as an input ---------------------------------------------------------------
+    def next_uniform(self, name='u'):
+        """the next U(0,1) draw the code takes from the global generator is this universally quantified value"""
+        from . import shims
+        u = self.real(name, lo=0, hi=1)
+        if self.sym: shims.PRESET['uniform'].append(u)
+        else: self._numq['uniform'].append(u); self._patch_random()
+        return u
+
+    def next_normal(self, name='xi', n=None):
+        """the next standard-normal draw (abstract vector if n is None, else n-vector)"""
+        from . import shims
+        z = self.avec(name) if n is None else (self.vec(name, n) if n else self.real(name))
+        if self.sym: shims.PRESET['normal'].append(z)
+        else: self._numq['normal'].append(z); self._patch_random()
+        return z
+
+    def _patch_random(self):
+        if self._patched: return
+        import numpy.random as nr
+        q = self._numq
+        saved = {k: getattr(nr, k) for k in ('rand', 'random', 'uniform', 'randn', 'standard_normal', 'normal')}
+        def take(fam, shape):
+            if not q[fam]: raise RuntimeError(f"contract did not name this {fam} draw")
+            v = q[fam].pop(0)
+            if shape not in (None, ()) and np.ndim(v) > 0:
+                try: v = np.reshape(v, shape) if np.size(v) == int(np.prod(shape)) else v
+                except Exception: pass
+            return v
+        nr.rand = lambda *sh: take('uniform', sh or None)
+        nr.random = lambda size=None: take('uniform', size)
+        nr.uniform = lambda low=0.0, high=1.0, size=None: low + (high - low) * take('uniform', size)
+        nr.randn = lambda *sh: take('normal', sh or None)
+        nr.standard_normal = lambda size=None: take('normal', size)
+        nr.normal = lambda loc=0.0, scale=1.0, size=None: loc + scale * take('normal', size)
+        self._patched = saved
+
+    def unpatch(self):
+        if self._patched:
+            import numpy.random as nr
+            for k, v in self._patched.items(): setattr(nr, k, v)
+            self._patched = None
 
     # -- helpers usable in both modes -----------------------------------------------------------
     def log(self, x): return np.log(x)
